@@ -3,9 +3,17 @@
 // executions; reports (a) panics, (b) errors, (c) a reported constant that a concrete execution contradicts.
 // Purpose: look for an input on which the solver stops early with a stale state because
 // Constants::partial_cmp answers Equal for two different constants (argued unreachable in units/C13/meta.json).
+// Output: one JSON line per disagreement (at most 3 per op) and a final summary line
+//   {"summary":true,"evaluations":N,"disagreements":M,"per_op":{...}}
+// Deterministic: the generator is seeded from the environment variable VERIF_SEED (default 0); the number of
+// functions is the first command-line argument (default 200000).
+// ops: "completes" (panic or Err on a def-before-use function), "constant" (a reported constant of an assigned
+// scalar differs from the value a concrete execution has immediately before the location executes; instruction,
+// edge and empty-block locations), "eval" (Constants::eval of an assignment's right-hand side returns a value that
+// differs from the value the expression has in that execution).
 use falcon::analysis::constants::constants;
 use falcon::il::*;
-use std::collections::HashMap;
+use std::collections::{BTreeMap, BTreeSet};
 use std::panic;
 
 struct Rng(u64);
@@ -79,29 +87,41 @@ fn build(blocks: &[Vec<Op>], edges: &[(usize, usize)]) -> Function {
     Function::new(0, cfg)
 }
 
+fn json_str(s: String) -> String { s.replace('\\', "/").replace('"', "'").chars().take(600).collect() }
+
 fn main() {
     let n: u64 = std::env::args().nth(1).and_then(|s| s.parse().ok()).unwrap_or(200_000);
+    let seed: u64 = std::env::var("VERIF_SEED").ok().and_then(|s| s.trim().parse().ok()).unwrap_or(0);
     panic::set_hook(Box::new(|_| {}));
-    let mut rng = Rng(0x9E3779B97F4A7C15);
-    let (mut ok, mut errs, mut panics, mut unsound, mut checks) = (0u64, HashMap::<String, u64>::new(), 0u64, 0u64, 0u64);
+    // xorshift needs a non-zero state; seed 0 gives the stream the unit's evidence was recorded with
+    let mut state = 0x9E3779B97F4A7C15u64 ^ seed.wrapping_mul(0xD1B5_4A32_D192_ED03);
+    if state == 0 { state = 0x9E3779B97F4A7C15; }
+    let mut rng = Rng(state);
+    let mut per_op: BTreeMap<String, u64> = BTreeMap::new();
+    let (mut ok, mut checks, mut found, mut missing) = (0u64, 0u64, 0u64, 0u64);
+    macro_rules! report {
+        ($op:expr, $it:expr, $blocks:expr, $edges:expr, $what:expr, $got:expr, $exp:expr) => {{
+            let c = per_op.entry($op.to_string()).or_insert(0);
+            *c += 1;
+            if *c <= 3 {
+                println!("{{\"witness\":true,\"op\":\"{}\",\"seed\":{},\"function\":{},\"blocks\":\"{}\",\"edges\":\"{:?}\",\"query\":\"{}\",\"got\":\"{}\",\"expected\":\"{}\"}}",
+                    $op, seed, $it, json_str(format!("{:?}", $blocks)), $edges, json_str($what), json_str(format!("{}", $got)), json_str(format!("{}", $exp)));
+            }
+            found += 1;
+        }};
+    }
     for it in 0..n {
         let (blocks, edges) = gen(&mut rng);
         let f = build(&blocks, &edges);
         let f2 = f.clone();
-        let r = panic::catch_unwind(move || constants(&f2));
-        let map = match r {
-            Err(_) => {
-                panics += 1;
-                if panics <= 3 {
-                    println!("PANIC on {:?} edges {:?}", blocks, edges);
-                    println!("{{\"witness\":true,\"op\":\"constants\",\"blocks\":\"{:?}\",\"edges\":\"{:?}\",\"got\":\"panic\",\"expected\":\"Ok or Err (completion)\"}}", blocks, edges);
-                }
-                continue;
-            }
-            Ok(Err(e)) => { *errs.entry(format!("{}", e).chars().take(40).collect()).or_insert(0) += 1; continue; }
+        checks += 1;
+        let map = match panic::catch_unwind(move || constants(&f2)) {
+            Err(_) => { report!("completes", it, blocks, edges, "constants(function)".to_string(), "panic", "Ok(..)"); continue; }
+            Ok(Err(e)) => { report!("completes", it, blocks, edges, "constants(function)".to_string(), format!("Err({})", e), "Ok(..)"); continue; }
             Ok(Ok(m)) => m,
         };
         ok += 1;
+        let mut bad: BTreeSet<String> = BTreeSet::new();
         // random concrete executions: the store maps the three scalars to values; a Load yields a random value
         for _ in 0..8 {
             let mut store: [u64; 3] = [rng.below(5) + 10, rng.below(5) + 10, rng.below(5) + 10];
@@ -109,28 +129,54 @@ fn main() {
             let mut steps = 0;
             let mut assigned = [false; 3];
             'run: loop {
-                for (i, op) in blocks[b].iter().enumerate() {
-                    // check the reported constants immediately before the instruction executes
-                    let loc = ProgramLocation::new(None, FunctionLocation::Instruction(b, i));
-                    if let Some(c) = map.get(&loc) {
-                        // the claim is about the scalars the function itself has assigned so far
-                        {
-                            for v in 0..3 {
-                                if !assigned[v] { continue; }
-                                if let Some(k) = c.scalar(&sc(v)) {
+                // the reported constants immediately before `loc` executes; the claim is about the scalars the
+                // function itself has assigned so far
+                macro_rules! check_at {
+                    ($fl:expr) => {{
+                        let loc = ProgramLocation::new(None, $fl);
+                        match map.get(&loc) {
+                            Some(c) => {
+                                for v in 0..3 {
+                                    if !assigned[v] { continue; }
+                                    let got = panic::catch_unwind(panic::AssertUnwindSafe(|| c.scalar(&sc(v)).map(|k| k.value_u64())));
                                     checks += 1;
-                                    if k.value_u64() != Some(store[v] & 0xffff_ffff) {
-                                        unsound += 1;
-                                        if unsound <= 5 {
-                                            println!("UNSOUND #{}: blocks {:?} edges {:?}: at {} the analysis reports {} = {} but an execution has {}", it, blocks, edges, loc, NAMES[v], k, store[v]);
-                                            println!("{{\"witness\":true,\"op\":\"constants\",\"blocks\":\"{:?}\",\"edges\":\"{:?}\",\"location\":\"{}\",\"scalar\":\"{}\",\"got\":\"{}\",\"expected\":\"{}\"}}", blocks, edges, loc, NAMES[v], k, store[v]);
-                                        }
+                                    match got {
+                                        Ok(None) => {}
+                                        Ok(Some(k)) if k == Some(store[v] & 0xffff_ffff) => {}
+                                        Ok(Some(k)) => { let q = format!("constants()[{}].scalar({})", loc, NAMES[v]);
+                                            // one report per (function, location, scalar)
+                                            if bad.insert(q.clone()) { report!("constant", it, blocks, edges, q, format!("{:?}", k), format!("no constant, or {} (an execution has that value there)", store[v])) } }
+                                        Err(_) => report!("constant", it, blocks, edges, format!("constants()[{}].scalar({})", loc, NAMES[v]), "panic", "no panic"),
                                     }
                                 }
+                                Some(c)
+                            }
+                            None => { missing += 1; None }
+                        }
+                    }};
+                }
+                if blocks[b].is_empty() { check_at!(FunctionLocation::EmptyBlock(b)); }
+                for (i, op) in blocks[b].iter().enumerate() {
+                    let c = check_at!(FunctionLocation::Instruction(b, i));
+                    // Constants::eval on the right-hand side: declines, or the value it has in this execution
+                    let rhs: Option<(Expression, u64, Vec<usize>)> = match op {
+                        Op::AssignConst(_, k) => Some((expr_const(*k, 32), *k, vec![])),
+                        Op::AssignAdd(_, w, k) => Some((Expression::add(ex(*w), expr_const(*k, 32)).unwrap(), (store[*w] + *k) & 0xffff_ffff, vec![*w])),
+                        Op::AssignCopy(_, w) => Some((ex(*w), store[*w], vec![*w])),
+                        Op::AssignSum(_, w, u) => Some((Expression::add(ex(*w), ex(*u)).unwrap(), (store[*w] + store[*u]) & 0xffff_ffff, vec![*w, *u])),
+                        Op::Load(_) | Op::Nop => None,
+                    };
+                    if let (Some(c), Some((e, val, reads))) = (c, rhs) {
+                        if reads.iter().all(|r| assigned[*r]) {
+                            checks += 1;
+                            match panic::catch_unwind(panic::AssertUnwindSafe(|| c.eval(&e).map(|k| k.value_u64()))) {
+                                Ok(None) => {}
+                                Ok(Some(k)) if k == Some(val) => {}
+                                Ok(Some(k)) => { let q = format!("constants()[block {} instruction {}].eval({})", b, i, e);
+                                    if bad.insert(q.clone()) { report!("eval", it, blocks, edges, q, format!("{:?}", k), format!("declines, or {} (the value in an execution)", val)) } }
+                                Err(_) => report!("eval", it, blocks, edges, format!("constants()[block {} instruction {}].eval({})", b, i, e), "panic", "declines or a value"),
                             }
                         }
-                    } else {
-                        println!("MISSING location {} in the result of #{}", loc, it);
                     }
                     match op {
                         Op::AssignConst(v, _) | Op::AssignAdd(v, _, _) | Op::AssignCopy(v, _) | Op::AssignSum(v, _, _) | Op::Load(v) => assigned[*v] = true,
@@ -148,13 +194,14 @@ fn main() {
                 }
                 let outs: Vec<usize> = edges.iter().filter(|(h, _)| *h == b).map(|(_, t)| *t).collect();
                 if outs.is_empty() || steps > 40 { break 'run; }
-                b = outs[rng.below(outs.len() as u64) as usize];
+                let t = outs[rng.below(outs.len() as u64) as usize];
+                check_at!(FunctionLocation::Edge(b, t));
+                b = t;
                 steps += 1;
             }
         }
     }
-    println!("functions: {}  Ok: {}  panics: {}  errors: {:?}", n, ok, panics, errs);
-    println!("constant checks against concrete executions: {}  contradictions: {}", checks, unsound);
-    let nerr: u64 = errs.values().sum();
-    println!("{{\"summary\":true,\"functions\":{},\"ok\":{},\"panics\":{},\"errors\":{},\"evaluations\":{},\"disagreements\":{}}}", n, ok, panics, nerr, checks, unsound + panics);
+    let po: Vec<String> = per_op.iter().map(|(k, v)| format!("\"{}\":{}", k, v)).collect();
+    println!("{{\"summary\":true,\"evaluations\":{},\"disagreements\":{},\"per_op\":{{{}}},\"seed\":{},\"functions\":{},\"ok\":{},\"visited_locations_without_report\":{}}}",
+        checks, found, po.join(","), seed, n, ok, missing);
 }
